@@ -42,6 +42,19 @@ type c17Shrinker struct {
 	// origOK: the unshrunk original ran to completion; then every accepted
 	// candidate's original must do so too (keeps shrunk programs meaningful)
 	origOK bool
+	// keepOutOfD8: the case being shrunk defines no name in the way the unfixed
+	// defect D8 covers (c17HasD8Shape); then no candidate may either.  A session
+	// of the family "defined more than once, referenced from elsewhere" could
+	// otherwise be reduced to a program that fails for D8's reason (an expression
+	// hoisted to the top level between two definitions of a name), and the finding
+	// would be filed under the known defect.
+	keepOutOfD8 bool
+	// startMulti: the (package, name) pairs the case being shrunk defines more
+	// than once (in one file or in several).  No candidate may define any other
+	// pair more than once: deleting an in-package form merges two packages, and
+	// two unrelated definitions of one spelling would become a redefinition - the
+	// shape of D8 again, reached by the shrinker and not by the generator.
+	startMulti map[string]bool
 }
 
 // c17InDomain rejects sessions in which a name changes what it RESOLVES to
@@ -135,6 +148,16 @@ func (s *c17Shrinker) fails(c *c17Case) (bool, *c17Finding) {
 	s.probes++
 	if !c17InDomain(c) {
 		return false, nil
+	}
+	if s.keepOutOfD8 && c17HasD8Shape(c) {
+		return false, nil
+	}
+	if s.startMulti != nil {
+		for k := range c17MultiDefs(c) {
+			if !s.startMulti[k] {
+				return false, nil
+			}
+		}
 	}
 	srcs := c.render()
 	det := 0 // determinism is not re-checked while shrinking another kind of finding
@@ -322,6 +345,8 @@ func c17IsFunctionValued(n *c17N) bool {
 }
 
 func (s *c17Shrinker) shrink(c *c17Case) (*c17Case, *c17Finding) {
+	s.keepOutOfD8 = !c17HasD8Shape(c)
+	s.startMulti = c17MultiDefs(c)
 	ok, last := s.fails(c)
 	if !ok {
 		return c, nil
@@ -876,6 +901,9 @@ type c17Sig struct {
 	// tmpl: what the quasiquote templates of the top-level defmacros name
 	// (c17TemplateShape); kept apart from flags so that keyPart is unchanged
 	tmpl map[string]bool
+	// redef: the class of a session in which a name is defined more than once in
+	// one file and none of these names has the shape of defect D8 (c17RedefFamily)
+	redef string
 }
 
 // c17TemplateShape describes the symbols that the quasiquote templates of the
@@ -1219,6 +1247,9 @@ func c17Signature(c *c17Case) *c17Sig {
 		}
 	}
 	s.tmpl = c17TemplateShape(c, s.defsByPkg)
+	if s.flags["name-defined-twice-in-one-file"] {
+		s.redef = c17RedefFamily(c)
+	}
 	return s
 }
 
@@ -1300,6 +1331,13 @@ func (s *c17Sig) family() string {
 	case fl["defun-inside-toplevel-let"]:
 		return "defun-inside-toplevel-let"
 	case fl["name-defined-twice-in-one-file"]:
+		// D8 covers a reference that may be evaluated between the definitions and a
+		// mention in the defining file after a defun was replaced by a set; a name
+		// defined more than once and referenced only where the last definition is
+		// the live one is an input class of its own (one per sequence of kinds)
+		if s.redef != "" {
+			return s.redef
+		}
 		return "name-defined-twice-in-one-file"
 	case fl["name-defined-in-two-files-of-one-package"]:
 		return "name-defined-in-two-files-of-one-package"
